@@ -197,11 +197,17 @@ def pat_match(pat, val):
         if val[0] == "S":
             return v.startswith("Str(") and lit_str(v) == val[1]
         if val[0] == "I":
-            return v.startswith("Int(") and int(v.split("(")[1].split(",")[0].rstrip(")").replace("Pu128", "").strip("( )")) == val[1]
+            return v.startswith("Int(") and _lit_int(v) == val[1]
         if val[0] == "B":
             return v == ("Bool(%s)" % ("true" if val[1] else "false"))
         return False
     return False
+
+
+def _lit_int(v):
+    import re as _re
+    m = _re.search(r"Pu128\((\d+)\)", v)
+    return int(m.group(1)) if m else None
 
 
 def lit_str(v):
@@ -282,6 +288,32 @@ def find_matches(fn, scrut_ty_contains=None, scrut_contains=None):
 
 # ---------------------------------------------------------------------------------- finite-domain partial evaluation
 
+def _enum_eq(fn, args, known):
+    from .panics import place_sig
+    names = []
+    for a in args:
+        e = fn.deep(a)
+        while e[0] in ("ref", "deref"):
+            e = e[1]
+        if e[0] == "agg" and not e[3]:
+            names.append(e[2])
+        elif e[0] == "var" and e[1] in known:
+            names.append(known[e[1]])
+        else:
+            pl = (a.get("move") or a.get("copy")) if isinstance(a, dict) else None
+            sig = None
+            if pl is not None:
+                # follow one reference: _x = &*op
+                d = fn.whole_defs(pl["l"]) if not pl["p"] else []
+                if len(d) == 1 and d[0][1] != "t" and d[0][2]["rv"]["k"] == "ref":
+                    sig = place_sig(fn, d[0][2]["rv"]["of"])
+            if sig in known:
+                names.append(known[sig])
+            else:
+                return None
+    return names[0] == names[1]
+
+
 def peval(fn, start, known, max_paths=400, max_steps=60000):
     """Walk the MIR from block `start` with the discriminants of some places fixed.
     known: {place_sig: variant name}; a `discr(place)` whose place_sig is in `known` evaluates to that variant's
@@ -334,7 +366,7 @@ def peval(fn, start, known, max_paths=400, max_steps=60000):
                     if va and vb and isinstance(va[1], int) and isinstance(vb[1], int) and rv["op"] in ("Eq", "Ne"):
                         val = ("c", int((va[1] == vb[1]) == (rv["op"] == "Eq")))
                 elif k == "agg":
-                    events.append(("agg", norm(rv["adt"]), rv["variant"], b))
+                    events.append(("agg", norm(rv["adt"]), rv["variant"], b, tuple(show(fn.expr(a, 2)) for a in rv["ops"])))
                 if not lhs["p"]:
                     if val is None:
                         env.pop(lhs["l"], None)
@@ -350,12 +382,18 @@ def peval(fn, start, known, max_paths=400, max_steps=60000):
                 continue
             if k == "call":
                 cal = norm(t.get("res") or t.get("callee")) or "?"
-                events.append(("call", cal, b))
+                events.append(("call", cal, b, tuple(show(fn.expr(a, 3)) for a in t.get("args", [])), t.get("args", [])))
                 if t["t"] is None:
                     out.append(dict(end="panic", block=b, events=events))
                     break
                 if not t["dest"]["p"]:
                     env.pop(t["dest"]["l"], None)
+                    # derived PartialEq on a fieldless enum whose discriminant is fixed: x == Enum::Variant
+                    if (cal.endswith("PartialEq>::eq") or cal.endswith("PartialEq>::ne")) and len(t.get("args", [])) == 2:
+                        r = _enum_eq(fn, t["args"], known)
+                        if r is not None:
+                            r = r if cal.endswith("::eq") else (not r)
+                            env[t["dest"]["l"]] = ("c", int(r), str(int(r)))
                 b = t["t"]
                 continue
             if k == "switch":
@@ -421,7 +459,7 @@ def hir_eval(fn, t, env):
             return v == "Bool(true)"
         if v.startswith("Int("):
             import re as _re
-            m = _re.search(r"(\d+)", v)
+            m = _re.search(r"Pu128\((\d+)\)", v)
             return int(m.group(1)) if m else UNKNOWN
         if v.startswith("Str("):
             return ("S", lit_str(v))
